@@ -984,3 +984,49 @@ const (
 	kindRangeDone      = cfg.KindRangeDone
 	kindSelectCaseBody = cfg.KindSelectCaseBody
 )
+
+// World builds an AvoidEdge function from a partial valuation of atomic conditions: every condition is evaluated in
+// three-valued logic and an edge that contradicts a known outcome is removed ("in the world where …").
+func (f *Flow) World(val func(atom ast.Expr) (truth bool, known bool)) func(b *cfgBlock, i int) bool {
+	var eval func(e ast.Expr) (bool, bool)
+	eval = func(e ast.Expr) (bool, bool) {
+		e = ast.Unparen(e)
+		switch x := e.(type) {
+		case *ast.UnaryExpr:
+			if x.Op == token.NOT {
+				v, k := eval(x.X)
+				return !v, k
+			}
+		case *ast.BinaryExpr:
+			if x.Op == token.LAND || x.Op == token.LOR {
+				a, ka := eval(x.X)
+				b, kb := eval(x.Y)
+				if x.Op == token.LAND {
+					if (ka && !a) || (kb && !b) {
+						return false, true
+					}
+					if ka && kb {
+						return true, true
+					}
+					return false, false
+				}
+				if (ka && a) || (kb && b) {
+					return true, true
+				}
+				if ka && kb {
+					return false, true
+				}
+				return false, false
+			}
+		}
+		return val(e)
+	}
+	return func(b *cfgBlock, i int) bool {
+		cond, isCase := f.Cond(b)
+		if cond == nil || isCase {
+			return false
+		}
+		v, known := eval(cond)
+		return known && v != (i == 0)
+	}
+}
